@@ -29,10 +29,11 @@ def splitLast (c : Nat) (s : Str) : Option (Str × Str) :=
   | [] => none
   | _ :: before => some (before.reverse, (r.takeWhile (· ≠ c)).reverse)
 
-/-- `strconv.ParseUint(s, 10, bits)` with the error ignored: the value, clamped to 2^bits-1 on range error -/
-def parseUintClamp (bits : Nat) (s : Str) : Nat :=
+/-- `strconv.ParseUint(s, 10, bits)` on a string of digits: `none` on a range error (the path is then
+    not a tile path) -/
+def parseUint (bits : Nat) (s : Str) : Option Nat :=
   let v := s.foldl (fun acc c => acc * 10 + (c - 0x30)) 0
-  if v < 2^bits then v else 2^bits - 1
+  if v < 2^bits then some v else none
 
 structure TilePath where
   name : Str
@@ -63,7 +64,9 @@ def parseTilePath (p : Str) : Option TilePath :=
           | some (name, zs) =>
             if zs.isEmpty || !zs.all isDigit then none else
             if !validName name then none else
-            some ⟨name, parseUintClamp 8 zs, parseUintClamp 32 xs, parseUintClamp 32 ys, ext⟩
+            match parseUint 8 zs, parseUint 32 xs, parseUint 32 ys with
+            | some z, some x, some y => some ⟨name, z, x, y, ext⟩
+            | _, _, _ => none
   | _ => none
 
 def jsonSuffix : Str := [0x2E, 0x6A, 0x73, 0x6F, 0x6E]           -- ".json"
